@@ -12,6 +12,11 @@ R07.d  available_operations() applies the installed filter to the raw ready
 R07.e  purity: a filter (and everything it calls) mutates neither the list
        it is given - which *is* the cached raw ready list - nor anything
        reachable from the dispatcher.
+R07.f  per-machine tables: an entry stored under machine ``m`` inside
+       ``for m in <op>.machines`` is computed from ``m`` (or guarded by a
+       test on ``m``) - start and end times are per machine, so a value
+       hoisted out of the machine loop fills the table with another
+       machine's time.
 """
 
 from __future__ import annotations
@@ -31,7 +36,9 @@ MANIFEST = {
         "of the filter bodies, hence for every state and list; the composite is "
         "a left fold over all its filters; the registry is total and "
         "name-consistent; available_operations applies the installed filter to "
-        "the raw ready list; filters are side-effect free on their inputs. "
+        "the raw ready list; filters are side-effect free on their inputs; the "
+        "per-machine tables the filters build are filled from the machine they "
+        "are indexed by. "
         "Not decided: non-emptiness and the exactness of each documented "
         "criterion, which depend on start-time values."
     ),
